@@ -257,6 +257,12 @@ def job_struct(job):
     read_sets = []
     for i in range(0, L, max(1, L // 6)):
         read_sets.append(([letters[i][1], letters[(i * 7 + 3 + seed) % L][1], letters[(i * 2 + 5) % L][1]], [2, 1, 3]))
+    # error-free calls (probability exactly 1 / 0 on *listed* alleles): a haplotype the read rules out has likelihood exactly zero, which is not a gap
+    def certain(hap, gap_at=None):
+        return [[float("nan")] * MAXA if j == gap_at else [1.0 if k == hap[j] else 0.0 for k in range(MAXA)] for j in range(n)]
+
+    read_sets.append(([certain(haps[0]), certain(haps[-1], gap_at=n - 1), letters[1 % L][1]], [2, 1, 3]))
+    read_sets.append(([certain(haps[len(haps) // 2]), letters[(3 + seed) % L][1], letters[2 % L][1]], [1, 2, 1]))
     cache = new_log_likelihood_cache(P, n, MAXA)
     for reads, counts in read_sets:
         R = np.array(reads, float)
